@@ -12,6 +12,7 @@ CONSTANTS
   MaxMarks = 0
   PropAllowed = FALSE
   SetAllAllowed = TRUE
+  LateEdges = FALSE
   RoundNodes <- RN_3_1
 INIT MCInit
 NEXT MCNext
